@@ -23,5 +23,7 @@ def run(ctx):
     tables.rebuild_backup(ctx, s)
     tables.marker_codec(ctx, s)
     tables.lookups_answer_from_table(ctx, s)
+    # rebuild re-indexes every entry of the id index in full: an id-index entry must exist only for a fully indexed event
+    tables.removal_funnel(ctx, s)
     storage.append_index_commit_order(ctx, s, "pocket_db::Store::rebuild", loop=True)
     storage.reopen_validates_marker(ctx, s)
